@@ -127,9 +127,11 @@ let spec_query docs = function
   | _ -> raise (Parse_error "query")
 let () =
   register "index_query" (function [tr; bs; docs; L qs] ->
-      (match M.index (to_bool tr) (to_nat bs) (to_docs docs) with
+      (match M.index_opt_g (to_bool tr) (to_nat bs) (to_docs docs) with
        | M.AOk ix -> L [A "ok"; L (List.map (run_query ix) qs)]
        | other -> of_api (fun _ -> A "x") other)
+    | _ -> raise (Parse_error "args"));
+  register "spec_index_query_trunc" (function [docs; L qs] -> L [A "ok"; L (List.map (spec_query (M.truncate_docs (to_docs docs))) qs)]
     | _ -> raise (Parse_error "args"));
   register "spec_index_query" (function [docs; L qs] -> L [A "ok"; L (List.map (spec_query (to_docs docs)) qs)]
     | _ -> raise (Parse_error "args"))
@@ -157,7 +159,7 @@ let run_vquery a = function
   | _ -> raise (Parse_error "vquery")
 let () =
   register "view_query" (function [avoid; bs; docs; keys; L qs] ->
-      (match M.index false (to_nat bs) (to_docs docs) with
+      (match M.index_g false (to_nat bs) (to_docs docs) with
        | M.AOk ix ->
            (match M.select_chain (M.of_index ix (to_bool avoid)) (to_list nl keys) with
             | M.AOk a -> L [A "ok"; L (List.map (run_vquery a) qs)]
@@ -193,7 +195,7 @@ let of_out = function
   | M.RUnit v -> of_api (fun () -> A "unit") v
 let () =
   register "purity_run" (function [cg; bs; docs; L ops] ->
-      (match M.index false (to_nat bs) (to_docs docs) with
+      (match M.index_g false (to_nat bs) (to_docs docs) with
        | M.AOk ix -> let (outs, _) = M.run (M.init_pool ix (to_n cg)) (List.map to_op ops) in L [A "ok"; L (List.map of_out outs)]
        | other -> of_api (fun _ -> A "x") other)
     | _ -> raise (Parse_error "args"))
@@ -206,7 +208,7 @@ let to_phase = function L [fi; b] -> { M.ph_field = to_nat fi; M.ph_boost = to_o
 let build_equery fields mm tie pf pf2 pf3 =
   let mk = function
     | L [docs; boost; terms] ->
-        (match M.index false (nat_of_int 1000000) (to_docs docs) with
+        (match M.index_g false (nat_of_int 1000000) (to_docs docs) with
          | M.AOk ix -> { M.ef_arr = M.of_index ix true; M.ef_boost = to_option to_z boost; M.ef_terms = nl terms }
          | _ -> raise (Parse_error "index failed"))
     | _ -> raise (Parse_error "field") in
